@@ -495,7 +495,7 @@ def _witness_work(lname):
                         if nm == '_should_apply': return Contract(lambda it, b: it.fork(it.fresh_bool('should_apply')), 'Serial._should_apply')
                         return super().sym_getattr(it, nm)
                 class Unserial(SymVal):
-                    def sym_getitem(self, it, br): return GenList([RS.WorldTok('w')])
+                    def sym_getitem(self, it, br): return GenList([RS.WorldTok('w'), RS.WorldTok('u')])      # two successor-less worlds
                 def runp(path):
                     it = Interp(path, world)
                     rm = SerialModel(rc, logic, helpers={H.UnserialWorlds: Unserial()})
@@ -505,11 +505,17 @@ def _witness_work(lname):
                 for pr in explore(runp):
                     if pr.kind != 'return': bad.append('exception'); continue
                     targets, path = pr.value
+                    served = []
                     for t in targets:
                         n += 1
-                        (g,) = t['adds']; (nd,) = g
-                        if not (nd.props.get('world1') == RS.WorldTok('w') and nd.props.get('world2') == RS.WorldTok('NEW') and 'world' in path.notes.get('fresh', [])):
+                        nds = [nd for g in t['adds'] for nd in g]
+                        # branch.new_world() only moves on when a node is appended: within ONE application it names one world, so a
+                        # target may use it as the successor of one world only
+                        if len(nds) != 1: bad.append(f'one serial application adds {len(nds)} access nodes {nds!r}: they share the one fresh world'); continue
+                        nd = nds[0]; served.append(nd.props.get('world1'))
+                        if not (nd.props.get('world1') in (RS.WorldTok('w'), RS.WorldTok('u')) and nd.props.get('world2') == RS.WorldTok('NEW') and 'world' in path.notes.get('fresh', [])):
                             bad.append(f'serial target {nd!r}')
+                    if targets and served != [RS.WorldTok('w'), RS.WorldTok('u')]: bad.append(f'targets serve {served!r}, the successor-less worlds are [w, u]')
                 if n == 0: bad.append('no target on any path')
                 results.append(discharge(Obligation(name, not bad, kind='enum', where=fi.where, meta=dict(logic=L, rule='Serial', cex=dict(bad=bad)))))
             except Outside as e:
